@@ -219,6 +219,30 @@ def check_amnesic(cfg, acc):
                               state=si)
             else:
                 acc.outcome(("amnesic", F["class"], rec[0], eps, si, a[0]))
+            # momentum transitions on a warm state, followed by reading the Hamiltonian
+            for coeff in (1.0, 0.5):
+                outs = {}
+                for label, cls in (("normal", ChainState), ("amnesic", Am)):
+                    acc.count("evaluations")
+                    st = cls(pos=q.copy(), mom=p.copy(), dir=1)
+                    try:
+                        case.system.h(st)
+                        case.system.dh_dmom(st)
+                        mt = T.CorrelatedMomentumTransition(case.system, coeff)
+                        st2, _ = mt.sample(st, StreamRng())
+                        outs[label] = ("ok", np.array(st2.mom), float(case.system.h(st2)),
+                                       np.array(case.system.dh_dmom(st2)))
+                    except Exception as e:  # noqa: BLE001
+                        outs[label] = ("exc", type(e).__name__, repr(e)[:200])
+                a, b = outs["normal"], outs["amnesic"]
+                same = a[0] == b[0] and (a[0] != "ok" or (
+                    np.array_equal(a[1], b[1]) and a[2] == b[2] and np.array_equal(a[3], b[3])))
+                if not same:
+                    acc.violation(driver="amnesic", config=cfg,
+                                  fields={**F, "method": f"correlated_momentum({coeff})"},
+                                  kind="caching_changes_result", observed=b, expected=a,
+                                  state=si)
+                    break
             # transitions
             for tname in ("static", "multinomial", "slice"):
                 outs = {}
